@@ -12,10 +12,10 @@ EXTENDS Unmarshal, Json
 CONSTANTS MaxFields, DoExport
 VARIABLES c
 
-PlainIds == <<"f_name", "f_count", "f_flag", "f_tags", "f_items", "f_env", "f_extra", "f_anyv", "f_sub", "f_psub", "f_hid", "f_ratio">>
+PlainIds == <<"f_name", "f_count", "f_flag", "f_tags", "f_items", "f_env", "f_extra", "f_anyv", "f_sub", "f_psub", "f_subs", "f_hid", "f_ratio">>
 InlineIds == {"none", "i_map", "i_str"}
 \* all keys, in the fixed order documents list them
-KeyOrder == <<"name", "label", "title", "count", "n", "flag", "tags", "labels", "items", "env", "extra", "anyv", "av", "sub", "psub", "ps",
+KeyOrder == <<"name", "label", "title", "count", "n", "flag", "tags", "labels", "items", "env", "extra", "anyv", "av", "sub", "psub", "ps", "subs",
               "hidden", "ratio", "u1", "", "p", "q">>
 Marker(k) == Str("m:" \o k)
 SubDocs == { [t |-> "m", kv |-> <<<<"x", Str("m:x")>>, <<"y", Num("41")>>>>], [t |-> "m", kv |-> <<<<"y", Num("42")>>, <<"zz", Str("lost")>>>>] }
@@ -31,7 +31,9 @@ Vals(k) ==
       [] k = "extra" -> {[t |-> "m", kv |-> <<<<"b", Num("1")>>, <<"a", [t |-> "q", e |-> <<Marker(k)>>]>>>>]}
       [] k \in {"anyv", "av"} -> {Marker(k), [t |-> "m", kv |-> <<<<"z", Marker(k)>>, <<"a", EmptySeq>>>>]}
       [] k \in {"sub", "psub", "ps"} -> SubDocs
-NullOK(k) == k \in {"name", "count", "flag", "tags", "items", "env", "extra", "anyv", "sub", "psub", "ratio"}   \* primaries
+      [] k = "subs" -> {[t |-> "q", e |-> <<[t |-> "m", kv |-> <<<<"x", Str("m:x")>>, <<"y", Num("41")>>>>], [t |-> "m", kv |-> <<<<"y", Num("42")>>>>]>>]}   \* the second element omits x
+NullOK(k) == k \in {"name", "count", "flag", "tags", "items", "env", "extra", "anyv", "sub", "psub", "ratio", "subs",
+                    "label", "title", "n", "labels", "av", "ps"}     \* primaries, and aliases too: a null alias is still the first PRESENT alias
 Absent == [t |-> "absent"]
 States(k) == {Absent} \cup Vals(k) \cup (IF NullOK(k) THEN {Null} ELSE {})
 
